@@ -10,7 +10,7 @@ CONSTANTS final,      \* TRUE iff the request is one that reports the outcome of
           objExists,  \* an object exists in the bucket under the key named in the returned envelope
           objSize, objSha,   \* its size and SHA-256
           envSize, envSha,   \* size and sha256 fields of the returned envelope
-          ack         \* broker's error code for the partition in its reply to the envelope record (0 = acknowledged; -1 = no reply)
+          ack         \* broker's error code for the partition in its reply to the envelope record (0 = acknowledged; 1000 = no code for the partition: no reply, or a reply without it)
 
 Success == final /\ http = 200
 C32_Stored == Success => (objExists /\ objSize = envSize /\ objSha = envSha)
